@@ -6,7 +6,10 @@
  *              channels (255 = channel has no valid COB-ID)
  *   MODE       NMT mode 2/3/4
  *   SEQ        string over 'R' (RPDO frame on CH), 'S' (SYNC), 'L' (local write
- *              to the mapped objects), 'F' (frame with a neighbouring identifier) */
+ *              to the mapped objects), 'F' (frame with a neighbouring identifier),
+ *              'P' NMT enter pre-operational, 'Z' NMT stop, 'N' NMT start: a reception
+ *              still waiting for its SYNC when OPERATIONAL is left is discarded (PDO
+ *              communication starts afresh with every OPERATIONAL phase)               */
 #define OD_SYNC
 #define OD_RPDO 2
 #define OD_DUMMY
@@ -67,6 +70,7 @@ void harness(void)
     uint8_t  have_pend = 0;
     uint8_t  dlc;
     uint8_t  sync_ch = ((CH == 0) ? TYPE0 : TYPE1) <= 240;
+    uint8_t  mode = MODE;
     uint32_t id = (CH == 0) ? 0x200 + OD_NODEID : 0x300 + OD_NODEID;
 
     env_reset();
@@ -95,14 +99,20 @@ void harness(void)
             dlc = (uint8_t)ND_RANGE(0, 8);
             ASSUME(dlc >= total);                      /* shorter frames: not constrained (DESIGN.md appendix B) */
             env_deliver(&node, (o == 'R') ? id : (id + 1), dlc, d);
-            if ((o == 'R') && (MODE == 3)) {
+            if ((o == 'R') && (mode == 3)) {
                 if (sync_ch) { for (k = 0; k < 8; k++) { pend[k] = d[k]; } have_pend = 1; }
                 else         { model_apply(d); }
             }
         } else if (o == 'S') {
             for (k = 0; k < 8; k++) { d[k] = 0; }
             env_deliver(&node, 0x80, 0, d);
-            if ((MODE == 3) && have_pend) { model_apply(pend); have_pend = 0; }
+            if ((mode == 3) && have_pend) { model_apply(pend); have_pend = 0; }
+        } else if ((o == 'P') || (o == 'Z') || (o == 'N')) {
+            for (k = 0; k < 8; k++) { d[k] = 0; }
+            d[0] = (o == 'P') ? 128 : (o == 'Z') ? 2 : 1; d[1] = OD_NODEID;
+            env_deliver(&node, 0x000, 2, d);
+            mode = (o == 'P') ? 2 : (o == 'Z') ? 4 : 3;
+            if (mode != 3) { have_pend = 0; }
         } else if (o == 'L') {
             app.b = ND_U8(); app.w = ND_U16(); app.l = ND_U32();
             mb = app.b; mw = app.w; ml = app.l;
